@@ -471,6 +471,53 @@ def switch_arm_runs(sw, tu):
     return out
 
 
+def check_mode_option(chk, main_tu):
+    """R20.7: an option that selects one of several named modes (-d arrays | gnu-ld | ...) sets the mode variable for every recognised
+    name, so that the last occurrence on the command line decides - a branch that relies on the initial value lets an earlier
+    occurrence stick (`-d gnu-ld -d arrays` would still create the datasegments file of the gnu-ld mode)"""
+    body = astdb.fn_body(main_tu.fn('main'))
+    n = 0
+    for sw in [x for x in walk(body) if x.get('kind') == 'SwitchStmt']:
+        for labels, st in switch_arm_runs(sw, main_tu):
+            branches = []       # (mode name, then-statement)
+            for i_ in walk(st):
+                if i_.get('kind') != 'IfStmt':
+                    continue
+                ks = [c for c in i_.get('inner', []) if c.get('kind')]
+                cmpc = [c for c in walk(ks[0]) if c.get('kind') == 'CallExpr' and astdb.callee_name(c) in ('strcmp', '__builtin_strcmp')]
+                if len(cmpc) != 1:
+                    continue
+                lits = [astdb.string_value(a) for a in astdb.call_args(cmpc[0])]
+                lits = [l for l in lits if l is not None]
+                if len(lits) == 1:
+                    branches.append((lits[0], ks[1]))
+            if len(branches) < 3:
+                continue
+            assigned = {}
+            for name, then in branches:
+                vs = {astdb.ref_name(astdb.strip(kids(x)[0])) for x in walk(then)
+                      if x.get('kind') == 'BinaryOperator' and x.get('opcode') == '=' and astdb.ref_name(astdb.strip(kids(x)[0]))}
+                assigned[name] = vs
+            common = {}
+            for vs in assigned.values():
+                for v in vs:
+                    common[v] = common.get(v, 0) + 1
+            if not common:
+                continue
+            var = max(common, key=common.get)
+            opt = sorted(('-%s' % chr(v)) if isinstance(v, int) and 32 < v < 127 else str(v) for v in labels)
+            for name, vs in sorted(assigned.items()):
+                returns = any(x.get('kind') == 'ReturnStmt' for x in walk(dict(branches)[name]))
+                if returns and var not in vs:
+                    continue        # e.g. "help": prints and leaves
+                n += 1
+                chk.expect(var in vs, 'R20.7', 'mode-option-sets-mode[%s %s]' % ('/'.join(opt), name),
+                           'the option %s %s does not assign %s (the other mode names do): it relies on the initial value, so an earlier %s on the same '
+                           'command line stays in effect - e.g. `%s gnu-ld %s %s` still runs in the earlier mode and creates that mode\'s files'
+                           % ('/'.join(opt), name, var, '/'.join(opt), '/'.join(opt), '/'.join(opt), name), 'main:option-switch')
+    chk.require(n >= 3, 'no mode-selecting option found in main (expected -d)')
+
+
 def remove_language(chk, main_tu, L):
     """cubes (per-position sets of byte values) of names of length L that reach remove()"""
     removed = []
@@ -878,6 +925,8 @@ def run(chk):
     c_tu = [t for t in tus if t.path.endswith('/c.c')][0]
     check_creators(chk, tus, prov)
     check_main_order(chk, main_tu, prov)
+    check_mode_option(chk, main_tu)
+    chk.floor('R20.7', 3)
     check_filter(chk, main_tu, c_tu, filename_length_macro(c_tu))
     check_writer_names(chk, c_tu, directory_changer(chk, prov))
     check_directory_change(chk, prov)
